@@ -625,6 +625,38 @@ func ruleLibMath(c *Ctx, r *R) {
 		}
 		calls := callsLib(fn, "math", lib)
 		if len(calls) == 0 {
+			// math.Max / math.Min handed as a function value to a shared helper: the helper's calls of that parameter
+			// are the library calls, and the helper is where the NaN guards must be
+			for _, b := range fn.Blocks {
+				for _, ins := range b.Instrs {
+					call, ok := ins.(*ssa.Call)
+					if !ok || call.Call.StaticCallee() == nil || len(call.Call.StaticCallee().Blocks) == 0 {
+						continue
+					}
+					for i, a := range call.Call.Args {
+						f, ok := a.(*ssa.Function)
+						if !ok || f.Pkg == nil || f.Pkg.Pkg.Path() != "math" || f.Name() != lib {
+							continue
+						}
+						helper := call.Call.StaticCallee()
+						if i >= len(helper.Params) {
+							continue
+						}
+						for _, hb := range helper.Blocks {
+							for _, hi := range hb.Instrs {
+								if hc, ok := hi.(*ssa.Call); ok && hc.Call.Value == ssa.Value(helper.Params[i]) {
+									calls = append(calls, hc)
+								}
+							}
+						}
+						if len(calls) > 0 {
+							fn = helper
+						}
+					}
+				}
+			}
+		}
+		if len(calls) == 0 {
 			// a hand-written comparison: Go's < and > treat +0 and -0 as equal, so ordering the zeros needs the sign bit
 			zero := len(callsLib(fn, "math", "Signbit"))+len(callsLib(fn, "math", "Copysign")) > 0
 			r.check(zero, name+":signed-zero", c.Pos(fn.Pos()), "not built on math."+lib+", orders the zeros with the sign bit", fmt.Sprintf("Math.%s is built neither on math.%s nor on a sign-bit test: Go's comparison operators cannot tell +0 from -0, but ES5 §15.8.2.11-12 orders them (+0 is larger than -0), so Math.%s(-0, 0) has the wrong sign", name, lib, name))
